@@ -19,7 +19,7 @@ TIME_BUDGET = {"quick": 60, "thorough": 600}
 FLOORS = {"quick": {"push_fails": 300, "pull_fails": 200, "wrong_records": 100, "fail_before_later_okay": 40, "distinct": 100},
           "thorough": {"push_fails": 5000, "pull_fails": 3000, "wrong_records": 1500, "fail_before_later_okay": 600}}
 
-REASONS = [b"", b"secure_mkdirs failed: Permission denied", "échec: accès refusé €".encode(), b"bad \xff\xfe\xc3 bytes \x80", b"R" * 1024, b"couldn't create file: Read-only file system"]
+REASONS = [b"", b"secure_mkdirs failed: Permission denied", b"disk 100% full: report%20final%d.pdf %s %%", b"{0} {name} {}", "échec: accès refusé €".encode(), b"bad \xff\xfe\xc3 bytes \x80", b"R" * 1024, b"couldn't create file: Read-only file system"]
 
 
 def gen_cases(tier, seed):
